@@ -458,6 +458,10 @@ def var_get_table(ctx, program, rid):
                         want = {"d.e": new_obj, "d.e.old": old_obj}[name]
                     elif known and name == "d.e":
                         want = last_obj
+                    elif ev and len(parts) == 3 and ent == "d.e":
+                        # an attribute of the entity the event is about: read from the event's own value (at the end of a hold the event is the one that started it,
+                        # not the latest notification)
+                        want = Const("new-attr") if parts[2] == "attr" else Const(None)
                     elif known and len(parts) == 3 and ent == "d.e":
                         want = Const("last-attr") if parts[2] == "attr" else Const(None)
                     elif ev and len(parts) == 4 and parts[2] == "old" and ent == "d.e":
